@@ -144,6 +144,8 @@ def defl_cov(rule, expl):
              "flush_points_checked": int(st.get("flush_points_checked", 0)), "full_flush_points": int(st.get("full_flush_points", 0)), "flush_calls_without_input_after_a_completed_flush": int(st.get("flush_calls_without_input_after_a_completed_flush", 0)), "full_flush_suffixes_over_1k": int(st.get("full_flush_suffixes_1k", 0)),
              "state_transitions_observed": dict(sorted(agg.cnts.get("state_transitions", {}).items())),
              "tmp_state_resume_points": dict(sorted(agg.cnts.get("tmp_state_resume_points", {}).items()))}
+        if any(st.get(k) for k in ("inputs_with_adler_A_0", "inputs_with_adler_A_65520", "inputs_with_adler_B_0", "inputs_with_adler_B_65520")):
+            c["inputs_shaped_so_that_adler32_sits_on_a_modulus_boundary"] = {k[len("inputs_with_adler_"):]: int(st.get(k, 0)) for k in ("inputs_with_adler_A_0", "inputs_with_adler_A_65520", "inputs_with_adler_B_0", "inputs_with_adler_B_65520")}
         if st.get("streams_of_4GiB_and_more"):
             c["streams_of_2^32_plus_delta_bytes_compressed_and_decoded_on_the_fly"] = int(st["streams_of_4GiB_and_more"])
         if st.get("inflate_dict_calls_refused"):
@@ -215,7 +217,8 @@ def infl_cov(rule, expl):
              "rejected_by_isal_but_only_the_lenient_reference_accepts": int(st.get("rejected_but_reference_lenient", 0)),
              "trailer_straddling_histories": int(st.get("trailer_straddling_histories", 0)), "need_dict_flows": int(st.get("need_dict_flows", 0)),
              "valid_streams_followed_by_foreign_bytes": int(st.get("valid_streams_followed_by_foreign_bytes", 0)), "stateless_retries_on_the_same_struct_after_overflow": int(st.get("stateless_retries_on_the_same_struct_after_overflow", 0)),
-             "generated_blocks_carrying_the_library_default_header_with_foreign_tokens": int(st.get("generated_blocks_carrying_the_library_default_header_with_foreign_tokens", 0))}
+             "generated_blocks_carrying_the_library_default_header_with_foreign_tokens": int(st.get("generated_blocks_carrying_the_library_default_header_with_foreign_tokens", 0)),
+             "streams_with_a_near_maximal_dynamic_header": int(st.get("streams_with_a_near_maximal_dynamic_header", 0)), "near_maximal_dynamic_header_bits_(RFC_maximum_2286)": sorted(agg.sets.get("near_maximal_dynamic_header_bits", []))}
         for k in ("systematic_header_flip_streams", "stream_source", "decodes_per_mode", "return_codes", "resume_block_states", "faults_detected", "faults_with_documented_class", "block_type_pairs", "flip_region", "systematic_split_streams"):
             if k in agg.cnts:
                 c[k] = dict(sorted(agg.cnts[k].items()))
@@ -452,7 +455,7 @@ PROPS = {
         coverage=merge_cov(defl_cov("producer: wrapped streams (gzip, gzip-nohdr, zlib, zlib-nohdr) from all levels under streaming schedules and one-shot calls", "trailer CRC-32/ISIZE and big-endian Adler-32 compared with the reference checksum of the input by the reference wrapper decoder and zlib"),
                            infl_cov("verifier: valid wrapped streams (ISA-L, zlib and grammar made) with single-bit flips (everywhere for streams <= 1 KiB, else header / first and last 64 bytes / trailer), byte substitutions, every kind of truncation and trailer edits; decoded stateless and streaming with chunkings that cut inside the last 12 bytes",
                                     "success is accepted only if the trailer bytes actually present equal the reference checksum/length of the bytes delivered (sound for benign flips and collisions); state->crc after completion must equal the reference checksum")),
-        floors=lambda ctx, agg: ([] if agg.stats.get("trailer_straddling_histories", 0) >= 2000 else ["trailer straddling histories %d" % agg.stats.get("trailer_straddling_histories", 0)]) + ([] if agg.stats.get("mutants_still_valid_and_accepted", 0) >= 1 else ["no benign mutation observed"]) + ([] if len(agg.cnts.get("flip_region", {})) >= 3 else ["flip regions %s" % agg.cnts.get("flip_region", {})]),
+        floors=lambda ctx, agg: (["Adler-32 boundary inputs: %s" % [int(agg.stats.get(k, 0)) for k in ("inputs_with_adler_A_0", "inputs_with_adler_A_65520", "inputs_with_adler_B_0", "inputs_with_adler_B_65520")]] if min(agg.stats.get(k, 0) for k in ("inputs_with_adler_A_0", "inputs_with_adler_A_65520", "inputs_with_adler_B_0", "inputs_with_adler_B_65520")) < 10 else []) + ([] if agg.stats.get("trailer_straddling_histories", 0) >= 2000 else ["trailer straddling histories %d" % agg.stats.get("trailer_straddling_histories", 0)]) + ([] if agg.stats.get("mutants_still_valid_and_accepted", 0) >= 1 else ["no benign mutation observed"]) + ([] if len(agg.cnts.get("flip_region", {})) >= 3 else ["flip regions %s" % agg.cnts.get("flip_region", {})]),
         assumptions=["*_NO_HDR modes do not consume or verify the trailer (documented); gzip header reserved bits are not judged"],
     ),
     "C02": dict(
